@@ -47,19 +47,23 @@ class TcpClient(object):
 
         msg_stop = False
         self.current_msg = ""
-        for b in self.buffer:
+        start = None  # position of the "*" of a message still waiting for ";"
+        for i, b in enumerate(self.buffer):
             if b == 59:
                 msg_stop = True
                 ts = time.time()
                 messages.append([self.current_msg, ts])
+                start = None
             if b == 42:
                 msg_stop = False
                 self.current_msg = ""
+                start = i
 
             if (not msg_stop) and (48 <= b <= 57 or 65 <= b <= 70 or 97 <= b <= 102):
                 self.current_msg = self.current_msg + chr(b)
 
-        self.buffer = []
+        # keep an unfinished message for the next reading cycle
+        self.buffer = [] if start is None else self.buffer[start:]
 
         return messages
 
